@@ -45,6 +45,21 @@ def _quantity(d):
     return getattr(U, cls)(float.fromhex(hx), unit)
 
 
+_FOREIGN_TYPES = {}
+
+
+def foreign_event_type(name: str):
+    """an EventType with the given NAME that is NOT the StatEvents one: defined in another class (`Sensor`).
+    EventBased*.notify must refuse a notification of such a type, whatever its payload."""
+    if name not in _FOREIGN_TYPES:
+        from pydsol.core.pubsub import EventType      # the tree under test
+
+        class Sensor:                                  # EventType records the name of the defining class body
+            TYPE = EventType(name)
+        _FOREIGN_TYPES[name] = Sensor.TYPE
+    return _FOREIGN_TYPES[name]
+
+
 def dec_impl(d):
     """the Python object handed to the implementation"""
     return _quantity(d) if "q" in d else dec(d)
